@@ -74,7 +74,14 @@ func checkCounterBalance(c *engine.Ctx, rule string) {
 	c.Rule(rule, "in a function whose body (closures and deferred clean-ups included) both increments and decrements the same struct-field counter, every path from an increment to a failing return (any return when the function has no error result) passes a decrement of that counter, in place, in a called helper or in a deferred closure as it runs at that exit")
 	p := c.P
 	errT := types.Universe.Lookup("error").Type()
-	n := 0
+	n, ops := 0, 0
+	for _, f := range p.RepoFuncs() {
+		engine.ForEachInstr(f, func(in ssa.Instruction) {
+			if fv, _ := counterOp(in); fv != nil {
+				ops++
+			}
+		})
+	}
 	for _, f := range p.RepoFuncs() {
 		if f.Parent() != nil {
 			continue
@@ -151,5 +158,5 @@ func checkCounterBalance(c *engine.Ctx, rule string) {
 				}}, "slot returned on every exit that does not keep it")
 		}
 	}
-	c.Floor(n, 1)
+	c.Check(ops >= 1, "counters:seen", token.NoPos, ops, nil, "positive control: %d counter updates seen in the module, %d functions both take and return a slot", ops, n)
 }
